@@ -11,7 +11,7 @@
  *
  * modes and child payload
  *   string | stream | file | inline   whole parsers:
- *        POLY <type> deg=<d> structure=<n> density=<n>       poly returned, flag clear
+ *        POLY <type> deg=<d> structure=<n> density=<n> prec=<p>   poly returned, flag clear
  *        ERR <escaped message>                                NULL returned, flag set
  *        BAD null-without-flag | BAD poly-with-flag <msg> | BAD flag-without-message
  *   tokmem | tokfile    mps_input_buffer_next_token until NULL:  TOKENS <n> <hex>,<hex>...
@@ -20,6 +20,8 @@
  *   skipc               mps_skip_comments on a FILE*:  SKIP pos=<offset of next unread byte>
  *   fmt                 mps_raise_parsing_error(ctx, buffer(line 7), token=<bytes>, "C09MSG"):
  *        MSG <escaped message>
+ *   gmp                 what GMP and glibc do with the bytes as one token (tie of coq/ParseTotal/Gmp621.v):
+ *        GMP f=<mpf_set_str==0> q=<mpq_set_str==0> num=<n> den=<d> d=<sscanf %d|-> ld=<sscanf %ld|-> atoi=<n> mul=<(long)(atoi*LOG2_10)>
  */
 #define _GNU_SOURCE
 #include <mps/mps.h>
@@ -116,8 +118,8 @@ report_parse (mps_context *ctx, mps_polynomial *p)
   char *msg = flag ? mps_context_error_msg (ctx) : NULL;
 
   if (p && !flag)
-    fprintf (RES, "POLY %s deg=%d structure=%d density=%d\n", p->type_name ? p->type_name : "?", p->degree,
-            (int)p->structure, (int)p->density);
+    fprintf (RES, "POLY %s deg=%d structure=%d density=%d prec=%ld\n", p->type_name ? p->type_name : "?", p->degree,
+            (int)p->structure, (int)p->density, p->prec);
   else if (!p && flag && msg)
     {
       fprintf (RES, "ERR ");
@@ -232,6 +234,21 @@ run_case (const char *mode, const char *path)
       fprintf (RES, "MSG ");
       if (m) put_escaped (RES, m);
       fprintf (RES, "\n");
+    }
+  else if (!strcmp (mode, "gmp"))
+    {
+      const char *t = (const char *)bytes;
+      mpf_t f; mpq_t q;
+      int d = 0; long ld = 0;
+      mpf_init2 (f, 64); mpq_init (q);
+      int rf = mpf_set_str (f, t, 10);
+      int rq = mpq_set_str (q, t, 10);
+      fprintf (RES, "GMP f=%d q=%d", rf == 0, rq == 0);
+      if (rq == 0) gmp_fprintf (RES, " num=%Zd den=%Zd", mpq_numref (q), mpq_denref (q));
+      else fprintf (RES, " num=- den=-");
+      if (sscanf (t, "%d", &d) == 1) fprintf (RES, " d=%d", d); else fprintf (RES, " d=-");
+      if (sscanf (t, "%ld", &ld) == 1) fprintf (RES, " ld=%ld", ld); else fprintf (RES, " ld=-");
+      { int a = atoi (t); long m = a * LOG2_10; fprintf (RES, " atoi=%d mul=%ld\n", a, m); }
     }
   else
     {
